@@ -68,8 +68,11 @@ async def apply(
     # Sleep strictly after patching, never before -- to keep the status proper.
     # The patching above, if done, interrupts the sleep instantly, so we skip it at all.
     # Note: a zero-second or negative sleep is still a sleep, it will trigger a dummy patch.
+    # A patch that changed nothing (the same version is back) brings no new event either:
+    # nothing will interrupt the sleep or follow it, so we sleep & touch as if with no patch.
     applied = False
-    if delay and patch:
+    patched = bool(patch) and resource_version != body.metadata.get('resourceVersion')
+    if delay and patched:
         logger.debug(f"Sleeping was skipped because of the patch, {delay} seconds left.")
     elif delay is not None:
         if delay > WAITING_KEEPALIVE_INTERVAL:
@@ -83,7 +86,7 @@ async def apply(
             unslept_delay = None  # no need to sleep? means: slept in full.
 
         # Exclude cases when touching immediately after patching (including: ``delay == 0``).
-        if patch and not delay:
+        if patched and not delay:
             pass
         elif unslept_delay is not None:
             logger.debug(f"Sleeping was interrupted by new changes, {unslept_delay} seconds left.")
